@@ -32,10 +32,11 @@ func RenameBlankIdentifier(sig *types.Signature) *types.Signature {
 func RenameBlankIdentifierWith(sig *types.Signature, prefix string) *types.Signature {
 	params := sig.Params()
 	results := sig.Results()
-	if !hasBlankIdentifier(params) && !hasCapturingName(results) {
+	quals := qualifiers(sig)
+	if !hasBlankIdentifier(params, quals) && !hasCapturingName(results) {
 		return sig
 	}
-	renamedTuple := rename(params, prefix)
+	renamedTuple := rename(params, prefix, quals)
 	if hasCapturingName(results) {
 		results = unnamed(results)
 	}
@@ -64,9 +65,19 @@ func unnamed(results *types.Tuple) *types.Tuple {
 	return types.NewTuple(vars...)
 }
 
-func hasBlankIdentifier(tup *types.Tuple) bool {
+// qualifiers returns the names of the packages that qualify the types of the signature where it is printed.
+func qualifiers(sig *types.Signature) map[string]bool {
+	quals := make(map[string]bool)
+	types.TypeString(sig, func(p *types.Package) string {
+		quals[p.Name()] = true
+		return p.Name()
+	})
+	return quals
+}
+
+func hasBlankIdentifier(tup *types.Tuple, quals map[string]bool) bool {
 	for i := 0; i < tup.Len(); i++ {
-		if unusable(tup.At(i).Name()) {
+		if unusable(tup.At(i).Name(), quals) {
 			return true
 		}
 	}
@@ -75,9 +86,9 @@ func hasBlankIdentifier(tup *types.Tuple) bool {
 
 // unusable reports whether a parameter cannot be forwarded under its own name:
 // it is blank or unnamed, or it would capture a name the generated wrappers use themselves:
-// f and err, and the predeclared identifiers (nil, true, string, ...) that the wrappers and the types they print refer to.
-func unusable(name string) bool {
-	if name == blackIdentifier || name == "" || name == "f" || name == "err" {
+// f and err, and the predeclared identifiers (nil, true, string, ...) and package names that the wrappers and the types they print refer to.
+func unusable(name string, quals map[string]bool) bool {
+	if name == blackIdentifier || name == "" || name == "f" || name == "err" || quals[name] {
 		return true
 	}
 	if strings.HasPrefix(name, "param_") || strings.HasPrefix(name, "innerParam_") {
@@ -87,11 +98,11 @@ func unusable(name string) bool {
 	return types.Universe.Lookup(name) != nil
 }
 
-func rename(tup *types.Tuple, prefix string) *types.Tuple {
+func rename(tup *types.Tuple, prefix string, quals map[string]bool) *types.Tuple {
 	vars := make([]*types.Var, tup.Len())
 	for i := range vars {
 		varValue := tup.At(i)
-		if unusable(varValue.Name()) || strings.HasPrefix(varValue.Name(), prefix) {
+		if unusable(varValue.Name(), quals) || strings.HasPrefix(varValue.Name(), prefix) {
 			varValue = types.NewVar(varValue.Pos(), varValue.Pkg(), prefix+strconv.Itoa(i), varValue.Type())
 		}
 		vars[i] = varValue
